@@ -118,7 +118,7 @@ def run(chk):
     _TreeDist.get_bipartition = staticmethod(spy)
     try:
         cases = []
-        n = chk.n(400, 6000)
+        n = chk.n(1200, 6000)
         for it in range(n):
             k = rng.choice([4, 4, 5, 5, 6, 7, 8, chk.n(9, 12)])
             ta = rand_tree(rng, range(k))
